@@ -2,6 +2,7 @@ package main
 
 import (
 	"fmt"
+	"go/token"
 	"go/types"
 
 	"golang.org/x/tools/go/ssa"
@@ -319,98 +320,252 @@ func ruleC14Status(cx *Ctx) {
 		cx.R.Check(ok && len(cut) >= 2, rule, name, "drain-cap", cx.P.Pos(dwb.Pos()),
 			"leaving the drain loop with tasks possibly pending stores processingToRequired", w...)
 	}
-	// (d) scheduleAfterWrite: per-case obligations on every return
+	// (d)-(f) decided on the control-flow graph specialised to one status value at a time: every comparison of the
+	// loaded drain status with a constant is decided, so switch, if-chains, || conditions and early returns are alike
+	statuses := []struct {
+		k    int64
+		name string
+	}{{st.idle, "idle"}, {st.required, "required"}, {st.pToIdle, "processingToIdle"}, {st.pToRequired, "processingToRequired"}}
+	// (d) scheduleAfterWrite
 	{
 		name := funcName(saw)
-		seenCase := map[int64]bool{}
-		allInstrs(saw, func(in ssa.Instruction) {
-			ret, ok := in.(*ssa.Return)
-			if !ok {
-				return
-			}
-			var cs int64 = -1
-			casOK := false
-			for _, g := range guardsAt(ret.Block()) {
-				if x, c, isEq, ok := eqConst(g.Cond); ok && isLoadOf(x, ds) && isEq && g.Truth {
-					cs = c
-				}
-				if c, ok := g.Cond.(*ssa.Call); ok && isCASConst(c, ds, st.pToIdle, st.pToRequired) && g.Truth {
-					casOK = true
-				}
-			}
-			seenCase[cs] = true
-			dominatedBy := func(is func(ssa.Instruction) bool) bool {
-				found := false
-				allInstrs(saw, func(x ssa.Instruction) {
-					if is(x) && instrDominates(x, ret) {
-						found = true
+		isSDB := func(x ssa.Instruction) bool { return isCallTo(x, sdb) }
+		for _, sv := range statuses {
+			g := specialise(saw, ds, sv.k)
+			cx.R.Check(!g.reaches(func(in ssa.Instruction) bool { _, ok := in.(*ssa.Panic); return ok }, nil, nil), rule, name, "status "+sv.name+" handled", cx.P.Pos(saw.Pos()), "a valid drain status never reaches the invalid-status panic")
+			isRet := func(in ssa.Instruction) bool { _, ok := in.(*ssa.Return); return ok }
+			switch sv.k {
+			case st.idle:
+				ok := g.reaches(isRet, nil, nil) &&
+					!g.reaches(isRet, func(in ssa.Instruction) bool { return isCASConst(in, ds, st.idle, st.required) }, nil) &&
+					!g.reaches(isRet, isSDB, nil)
+				cx.R.Check(ok, rule, name, "case idle", cx.P.Pos(saw.Pos()), "idle: CAS(idle->required) and scheduleDrainBuffers before returning")
+			case st.required:
+				cx.R.Check(g.reaches(isRet, nil, nil) && !g.reaches(isRet, isSDB, nil), rule, name, "case required", cx.P.Pos(saw.Pos()), "required: scheduleDrainBuffers before returning")
+			case st.pToIdle:
+				// no return without winning CAS(processingToIdle->processingToRequired): cut the success edges
+				cut := map[edge]bool{}
+				hasCAS := false
+				allInstrs(saw, func(in ssa.Instruction) {
+					if c, ok := in.(*ssa.Call); ok && isCASConst(c, ds, st.pToIdle, st.pToRequired) {
+						for _, i := range ifsOn(c) {
+							cut[edge{i.If.Block(), i.TrueIdx}] = true
+							hasCAS = true
+						}
 					}
 				})
-				return found
-			}
-			isSDB := func(x ssa.Instruction) bool { return isCallTo(x, sdb) }
-			switch cs {
-			case st.idle:
-				ok := dominatedBy(func(x ssa.Instruction) bool { return isCASConst(x, ds, st.idle, st.required) }) && dominatedBy(isSDB)
-				cx.R.Check(ok, rule, name, "case idle", cx.P.where(ret), "idle: CAS(idle->required) and scheduleDrainBuffers before returning")
-			case st.required:
-				cx.R.Check(dominatedBy(isSDB), rule, name, "case required", cx.P.where(ret), "required: scheduleDrainBuffers before returning")
-			case st.pToIdle:
-				cx.R.Check(casOK, rule, name, "case processingToIdle", cx.P.where(ret), "processingToIdle: return only on the success edge of CAS(processingToIdle->processingToRequired); otherwise retry")
+				cx.R.Check(hasCAS && g.reaches(isRet, nil, nil) && !g.reaches(isRet, nil, cut), rule, name, "case processingToIdle", cx.P.Pos(saw.Pos()), "processingToIdle: return only on the success edge of CAS(processingToIdle->processingToRequired); otherwise retry")
 			case st.pToRequired:
-				cx.R.OK(rule, name, "case processingToRequired", cx.P.where(ret), "processingToRequired: the running maintenance will see it")
-			default:
-				cx.R.Violate(rule, name, "return outside the status cases", cx.P.where(ret), "a return of scheduleAfterWrite is not inside one of the four drain-status cases")
-			}
-		})
-		for _, c := range []int64{st.idle, st.required, st.pToIdle, st.pToRequired} {
-			if !seenCase[c] {
-				cx.R.Violate(rule, name, fmt.Sprintf("case %d missing", c), cx.P.Pos(saw.Pos()), "scheduleAfterWrite has no return inside the case for this drain status")
+				cx.R.Check(g.reaches(isRet, nil, nil), rule, name, "case processingToRequired", cx.P.Pos(saw.Pos()), "processingToRequired: the running maintenance will see it")
 			}
 		}
-	}
-	// (e) exhaustive switches
-	for _, fn := range []*ssa.Function{saw, shd} {
-		seen := map[int64]bool{}
-		allInstrs(fn, func(in ssa.Instruction) {
-			if b, ok := in.(*ssa.BinOp); ok {
-				if x, c, isEq, ok := eqConst(b); ok && isEq && isLoadOf(x, ds) {
-					seen[c] = true
-				}
-			}
-		})
-		all := seen[st.idle] && seen[st.required] && seen[st.pToIdle] && seen[st.pToRequired]
-		cx.R.Check(all, rule, funcName(fn), "exhaustive", cx.P.Pos(fn.Pos()), "status switch compares against all four drain-status constants")
 	}
 	// (f) shouldDrainBuffers decision table: idle -> !delayable, required -> true, processing* -> false
 	{
 		name := funcName(shd)
-		allInstrs(shd, func(in ssa.Instruction) {
-			ret, ok := in.(*ssa.Return)
-			if !ok || len(ret.Results) != 1 {
-				return
-			}
-			var cs int64 = -1
-			for _, g := range guardsAt(ret.Block()) {
-				if x, c, isEq, ok := eqConst(g.Cond); ok && isLoadOf(x, ds) && isEq && g.Truth {
-					cs = c
+		for _, sv := range statuses {
+			g := specialise(shd, ds, sv.k)
+			cx.R.Check(!g.reaches(func(in ssa.Instruction) bool { _, ok := in.(*ssa.Panic); return ok }, nil, nil), rule, name, "status "+sv.name+" handled", cx.P.Pos(shd.Pos()), "a valid drain status never reaches the invalid-status panic")
+			n := 0
+			okAll := true
+			for _, blk := range shd.Blocks {
+				if !g.live[blk] {
+					continue
+				}
+				ret, ok := blk.Instrs[len(blk.Instrs)-1].(*ssa.Return)
+				if !ok || len(ret.Results) != 1 {
+					continue
+				}
+				n++
+				res := ret.Results[0]
+				// a result merged from several returns (named result / result variable): take the edges that are live
+				vals := []ssa.Value{res}
+				if ph, isPhi := res.(*ssa.Phi); isPhi {
+					vals = nil
+					for i, e := range ph.Edges {
+						if g.liveEdge[edge{ph.Block().Preds[i], succIndex(ph.Block().Preds[i], ph.Block())}] {
+							vals = append(vals, e)
+						}
+					}
+				}
+				for _, v := range vals {
+					switch sv.k {
+					case st.idle:
+						x, neg := stripNot(v)
+						_, isParam := x.(*ssa.Parameter)
+						okAll = okAll && isParam && neg
+					case st.required:
+						c, isC := constBool(v)
+						okAll = okAll && isC && c
+					default:
+						c, isC := constBool(v)
+						okAll = okAll && isC && !c
+					}
 				}
 			}
-			res := ret.Results[0]
-			switch cs {
-			case st.idle:
-				v, neg := stripNot(res)
-				_, isParam := v.(*ssa.Parameter)
-				cx.R.Check(isParam && neg, rule, name, "table idle", cx.P.where(ret), "idle: drain iff the read was not delayable (buffer full)")
-			case st.required:
-				b, ok := constBool(res)
-				cx.R.Check(ok && b, rule, name, "table required", cx.P.where(ret), "required: always drain")
-			case st.pToIdle, st.pToRequired:
-				b, ok := constBool(res)
-				cx.R.Check(ok && !b, rule, name, fmt.Sprintf("table processing(%d)", cs), cx.P.where(ret), "processing: never schedule another drain")
-			}
-		})
+			want := map[int64]string{st.idle: "idle: drain iff the read was not delayable (buffer full)", st.required: "required: always drain", st.pToIdle: "processing: never schedule another drain", st.pToRequired: "processing: never schedule another drain"}[sv.k]
+			cx.R.Check(n > 0 && okAll, rule, name, "table "+sv.name, cx.P.Pos(shd.Pos()), want)
+		}
 	}
+}
+
+// specialised control flow: the blocks and edges of fn that can execute when every load of the status field yields k.
+type specCFG struct {
+	fn       *ssa.Function
+	live     map[*ssa.BasicBlock]bool
+	liveEdge map[edge]bool
+}
+
+func succIndex(from, to *ssa.BasicBlock) int {
+	for i, s := range from.Succs {
+		if s == to {
+			return i
+		}
+	}
+	return 0
+}
+
+func specialise(fn *ssa.Function, f *types.Var, k int64) *specCFG {
+	g := &specCFG{fn: fn, live: map[*ssa.BasicBlock]bool{}, liveEdge: map[edge]bool{}}
+	// value of a boolean under the specialisation, arriving from pred (for phis): 1 true, 0 false, -1 unknown
+	var eval func(v ssa.Value, pred *ssa.BasicBlock, depth int) int
+	eval = func(v ssa.Value, pred *ssa.BasicBlock, depth int) int {
+		if depth > 8 {
+			return -1
+		}
+		switch x := v.(type) {
+		case *ssa.Const:
+			if b, ok := constBool(x); ok {
+				if b {
+					return 1
+				}
+				return 0
+			}
+		case *ssa.UnOp:
+			if x.Op == token.NOT {
+				if r := eval(x.X, pred, depth+1); r >= 0 {
+					return 1 - r
+				}
+			}
+		case *ssa.BinOp:
+			var c int64
+			var isC bool
+			var other ssa.Value
+			flip := false
+			if c, isC = constInt(x.Y); isC {
+				other = x.X
+			} else if c, isC = constInt(x.X); isC {
+				other, flip = x.Y, true
+			}
+			if !isC || !isLoadOf(other, f) {
+				return -1
+			}
+			l, r := k, c
+			if flip {
+				l, r = c, k
+			}
+			var res bool
+			switch x.Op {
+			case token.EQL:
+				res = l == r
+			case token.NEQ:
+				res = l != r
+			case token.LSS:
+				res = l < r
+			case token.LEQ:
+				res = l <= r
+			case token.GTR:
+				res = l > r
+			case token.GEQ:
+				res = l >= r
+			default:
+				return -1
+			}
+			if res {
+				return 1
+			}
+			return 0
+		case *ssa.Phi:
+			if pred == nil {
+				return -1
+			}
+			for i, p := range x.Block().Preds {
+				if p == pred {
+					return eval(x.Edges[i], nil, depth+1)
+				}
+			}
+		}
+		return -1
+	}
+	type item struct{ b, pred *ssa.BasicBlock }
+	work := []item{{fn.Blocks[0], nil}}
+	seen := map[item]bool{}
+	for len(work) > 0 {
+		it := work[len(work)-1]
+		work = work[:len(work)-1]
+		if seen[it] {
+			continue
+		}
+		seen[it] = true
+		g.live[it.b] = true
+		last := it.b.Instrs[len(it.b.Instrs)-1]
+		if ifi, ok := last.(*ssa.If); ok {
+			pred := it.pred
+			if ph, isPhi := ifi.Cond.(*ssa.Phi); !isPhi || ph.Block() != it.b {
+				pred = nil
+			}
+			switch eval(ifi.Cond, pred, 0) {
+			case 1:
+				g.liveEdge[edge{it.b, 0}] = true
+				work = append(work, item{it.b.Succs[0], it.b})
+			case 0:
+				g.liveEdge[edge{it.b, 1}] = true
+				work = append(work, item{it.b.Succs[1], it.b})
+			default:
+				for i, s := range it.b.Succs {
+					g.liveEdge[edge{it.b, i}] = true
+					work = append(work, item{s, it.b})
+				}
+			}
+			continue
+		}
+		for i, s := range it.b.Succs {
+			g.liveEdge[edge{it.b, i}] = true
+			work = append(work, item{s, it.b})
+		}
+	}
+	return g
+}
+
+// reaches: some live path from the entry reaches an instruction satisfying target without first crossing an instruction
+// satisfying barrier (nil: none) and without using an edge in cut.
+func (g *specCFG) reaches(target, barrier func(ssa.Instruction) bool, cut map[edge]bool) bool {
+	seen := map[*ssa.BasicBlock]bool{}
+	var walk func(b *ssa.BasicBlock) bool
+	walk = func(b *ssa.BasicBlock) bool {
+		if seen[b] {
+			return false
+		}
+		seen[b] = true
+		for _, in := range b.Instrs {
+			if barrier != nil && barrier(in) {
+				return false
+			}
+			if target(in) {
+				return true
+			}
+		}
+		for i, s := range b.Succs {
+			if !g.liveEdge[edge{b, i}] || cut[edge{b, i}] {
+				continue
+			}
+			if walk(s) {
+				return true
+			}
+		}
+		return false
+	}
+	return walk(g.fn.Blocks[0])
 }
 
 // ---- C14.lockpair ----
@@ -452,7 +607,7 @@ func ruleC14LockPair(cx *Ctx) {
 					handoff := false
 					allInstrs(fn, func(x ssa.Instruction) {
 						if isStdMethod(x, "sync/atomic", "Uint32", "CompareAndSwap") {
-							if _, isLocal := stripLoad(recvValue(x)).(*ssa.Alloc); isLocal && tokenPassedToDrain(cx, fn, recvValue(x)) {
+							if isLocal := freshBase(recvValue(x)); isLocal && tokenPassedToDrain(cx, fn, recvValue(x)) {
 								for _, j := range ifsOn(x.(ssa.Value)) {
 									cut[edge{j.If.Block(), 1 - j.TrueIdx}] = true
 									handoff = true
@@ -483,7 +638,15 @@ func ruleC14LockPair(cx *Ctx) {
 					succ := j.If.Block().Succs[j.TrueIdx]
 					ok, w := MustFollowPt(Pt{succ, 0}, isUnlock, exitReturn, nil)
 					cx.R.Check(ok, rule, funcName(db), "token won", cx.P.where(in), "the executor task that wins the token runs with the scheduler's lock and releases it", w...)
-					ok2, w2 := MustFollowPt(Pt{succ, 0}, func(x ssa.Instruction) bool { return isCallTo(x, maint) }, exitReturn, nil)
+					memo := map[*ssa.Function]int{}
+					isMaint := func(x ssa.Instruction) bool { return isCallTo(x, maint) }
+					ok2, w2 := MustFollowPt(Pt{succ, 0}, func(x ssa.Instruction) bool {
+						if isMaint(x) {
+							return true
+						}
+						c := calleeOf(x)
+						return c != nil && c.Pkg != nil && c.Pkg.Pkg.Path() == modPath && mustPerform(c, isMaint, memo)
+					}, exitReturn, nil)
 					cx.R.Check(ok2, rule, funcName(db), "token won: maintenance", cx.P.where(in), "the executor task that wins the token runs maintenance", w2...)
 				}
 			}
@@ -502,10 +665,34 @@ func tokenPassedToDrain(cx *Ctx, fn *ssa.Function, tok ssa.Value) bool {
 			if isCallTo(in, db) {
 				found = true
 			}
+			// a named method handed over as a value (job.run) that reaches drainBuffers
+			if mc, ok := in.(*ssa.MakeClosure); ok {
+				if bm := boundMethod(mc); bm != nil {
+					if ok, _ := reachesInstr(origin(bm), func(x ssa.Instruction) bool { return isCallTo(x, db) }, map[*ssa.Function]bool{}, nil); ok {
+						found = true
+					}
+				}
+			}
 		})
 	})
 	_ = tok
 	return found
+}
+
+// freshBase: the address lies inside an object allocated in this function (a local, or a field of a new struct).
+func freshBase(v ssa.Value) bool {
+	for i := 0; i < 4; i++ {
+		v = stripLoad(v)
+		switch x := v.(type) {
+		case *ssa.Alloc:
+			return true
+		case *ssa.FieldAddr:
+			v = x.X
+		default:
+			return false
+		}
+	}
+	return false
 }
 
 // ---- C14.dispatch ----
